@@ -80,8 +80,28 @@ def run(prop, tier, seed):
                     c.violation(key, what, {"table": data["tables"][row["t"] - 1], "row": {"t": row["t"], "o": row["o"]},
                                             "vector": vec.group(1) if vec else None})
             os.remove(path)
-        c.traces = rows_total
-        c.nontrivial = total
+        # 3. the spelling sample: arbitrary spellings (field order; every optional metric absent / Not Defined / defined), stratified by
+        #    the number of written optional metrics (every single optional metric x value alone, seeded pairs, seeded dense vectors),
+        #    boundary spellings; string-level events judged by TraceOracle.tla
+        import random
+        from props import walks
+        from props.strings import record_events, judge
+        import corpus
+        from common import esc
+        rnd = random.Random(seed * 1000003 + int(prop[1:]))
+        st = [x for x in walks.stratified_starts(rnd, 4 if tier == "quick" else 20, 600 if tier == "quick" else 20000, 3000 if tier == "quick" else 100000) if x["ver"] == ver]
+        items = [{"op": "construct", "ver": ver, "s": esc(walks.spelled(ver, x["minor"], x["fields"])), "json": False} for x in st]
+        items += [{"op": "construct", "ver": ver, "s": esc(corpus.random_vector(rnd, ver)[3]), "json": False} for _ in range(2000 if tier == "quick" else 50000)]
+        sev = record_events(items, work, name="spell")
+        for e in sev:
+            for k in ("re_clean", "re_rh", "asm"):
+                e["out"].pop(k, None)
+        judge(c, prop, sev, work, "spelling-sample", module="TraceOracle", cfg="TraceOracle.cfg", extra_states=0,
+              keyfn=lambda e, what: "%s|%s" % (prop, e["s"]))
+        c.evaluations += len(sev)
+        c.extra["spelling_sample"] = len(sev)
+        c.traces += rows_total
+        c.nontrivial = total + len(set(e["s"] for e in sev))
         c.exhaustive = (tier == "thorough")
         c.rule = ("score tables in canonical spelling over product sets of metric values (see harness/tables.py, "
                   "DESIGN.md 5); every entry is one constructor call on the working tree, judged by "
